@@ -123,7 +123,7 @@ pub fn scope(name: &str) -> Option<Scope> {
         "S3wl" => Scope { name: "S3wl", n: 3, r: 1, k: 1, copyroot: false, upgrade_ops: false, wrap: false, ..BASE },
         // 4 objects with weak pointers, minimal alphabet (list surgery around kept shells needs holder + shell + fresh allocation + garbage)
         "S4wl" => Scope { name: "S4wl", n: 4, r: 1, k: 1, copyroot: false, upgrade_ops: false, wrap: false, ..BASE },
-        "S4wl11" => Scope { name: "S4wl11", n: 4, r: 1, k: 1, copyroot: false, upgrade_ops: false, wrap: false, max_depth: 11, ..BASE },
+        "S4wl9" => Scope { name: "S4wl9", n: 4, r: 1, k: 1, copyroot: false, upgrade_ops: false, wrap: false, max_depth: 9, ..BASE },
         "S2wd" => Scope { name: "S2wd", n: 2, r: 1, k: 1, dynweak: true, ..BASE },
         // weak look-ups that store nothing + "garbage at wake dies in that cycle"
         "S2wx" => Scope { name: "S2wx", n: 2, r: 1, k: 1, copyroot: false, wrap: false, exact_cycle: true, ..BASE },
